@@ -213,7 +213,7 @@ PreSane ==
 \* number the members; a filled value comes from the same group, from the right side
 RowKey(i) == KeyOf(case.rows[i], case.keys)
 InGroup(i) == ~(case.dropna /\ HasNAKey(case.rows[i], case.keys))
-XfRaisesIff == Judged("xf") => (exp.err <=> (case.op = "tsum" /\ case.rows # <<>> /\ \A i \in DOMAIN case.rows : ~InGroup(i)))
+XfRaisesIff == Judged("xf") => (exp.err <=> (case.op = "tsum" /\ case.tgt = "frame" /\ case.rows # <<>> /\ \A i \in DOMAIN case.rows : ~InGroup(i)))
 XfSane ==
   (Judged("xf") /\ ~exp.err) =>
      LET cols == IF case.op = "cumcount" THEN <<"">> ELSE case.cols IN
